@@ -410,6 +410,18 @@ theorem tempo_search_results_in_window (o : Oracles) (db : SearchDb) (r : Search
     ∃ ts, row.get "start_time_unix_nano" = .int ts ∧ r.fromNs < ts ∧ ts ≤ r.toNs :=
   planSearch_rows_in_window o db r ver hf ht row h
 
+/-- **tempo_span_bounded_sound.** The span-scan rule of `searchConfined` is sound for `Tempo.searchRows` on ANY statement of
+    the shape (not only on plans of the model — it is what the driver applies to the statements the REAL code sends, read back
+    from their text): when `spanBounded w st` holds, every returned row has an integer timestamp column `≥ from − slack` and
+    one `≤ to + slack`, provided the span table has no column named like a SELECT-list alias (then an alias in WHERE means the
+    aliased column, as in ClickHouse). -/
+theorem tempo_span_bounded_sound (o : Oracles) (w : Window) (db : SearchDb) (st : SearchStmt) (hb : spanBounded w st = true)
+    (hA : ∀ s ∈ db.spans, ∀ a ∈ (aliasList st.cols).map (·.1), s.lookup a = none)
+    (row : Row) (h : row ∈ searchRows o db st) :
+    (∃ c ts, isTsCol c = true ∧ row.get c = .int ts ∧ w.fromNs - w.slackNs ≤ ts) ∧
+    (∃ c ts, isTsCol c = true ∧ row.get c = .int ts ∧ ts ≤ w.toNs + w.slackNs) :=
+  spanBounded_sound o w db st hb hA row h
+
 /-- … and that column is the span's own `timestamp_ns` (the table has no column of the alias' name) -/
 theorem tempo_search_alias_is_timestamp (o : Oracles) (s : Row) (h : s.lookup "start_time_unix_nano" = none) :
     (aliasRow o searchCols s).get "start_time_unix_nano" = s.get "timestamp_ns" :=
